@@ -18,4 +18,11 @@ def allegraOutsideValidityInterval (slot : Nat) (TTL : Nat) (ValidityIntervalSta
 /-- what each era's `UtxoValidateOutsideValidityIntervalUtxo` forwards to ("self" = has its own body) -/
 def validityDelegation : List (String × String) := [("allegra", "self"), ("mary", "allegra.UtxoValidateOutsideValidityIntervalUtxo"), ("alonzo", "allegra.UtxoValidateOutsideValidityIntervalUtxo"), ("babbage", "allegra.UtxoValidateOutsideValidityIntervalUtxo"), ("conway", "allegra.UtxoValidateOutsideValidityIntervalUtxo")]
 
+/-- condition at ledger/conway/rules.go:2954 of `UtxoValidateWithdrawals` under which the rule returns nil without looking at delegations -/
+def withdrawalsGateSkipped (protocolMajor : Nat) : Bool :=
+  (decide (protocolMajor < 10) || decide (protocolMajor ≥ 12))
+
+/-- what each era's `UtxoValidateWithdrawals` forwards to ("self" = has its own body) -/
+def withdrawalsDelegation : List (String × String) := [("conway", "self")]
+
 end GV.Gen.G1Rules
